@@ -502,6 +502,10 @@ pub fn run_case(case: &Case) -> CaseResult {
 	let (mut consumed_min, mut consumed_max) = (0.0f64, 0.0f64);
 	// a fade whose start value is known exactly (from unity / from silence): (audio time of its first callback, tween, downwards?)
 	let mut known_fade: Option<(f64, Tw, bool)> = None;
+	// the fade-in tween of a resume / resume_at issued while the sound was surely Paused: whenever it
+	// fires, a callback that began with the sound not advancing cannot be louder than that fade-in
+	// can have got since the callback began
+	let mut quiet_resume: Option<Tw> = None;
 	let mut audio_time = 0.0f64;
 	for (ci, chunk) in case.chunks.iter().enumerate() {
 		let secs = *chunk as f64 * dt;
@@ -704,6 +708,11 @@ pub fn run_case(case: &Case) -> CaseResult {
 		last_pos = Some(pos);
 		// ---- envelope oracle (looping DC sound: output == gain * dc) ----------
 		if let Some(cmd) = lifecycle_cmd {
+			quiet_resume = match cmd {
+				Cmd::Resume(t) | Cmd::ResumeAt(_, t) if pre_early == M::Paused && pre_late == M::Paused => Some(t),
+				Cmd::SeekTo(_) => quiet_resume,
+				_ => None,
+			};
 			known_fade = match cmd {
 				Cmd::Pause(t) | Cmd::Stop(t) if pre_early == M::Playing && pre_late == M::Playing => Some((audio_time, t, true)),
 				Cmd::Resume(t) if pre_early == M::Paused && pre_late == M::Paused => Some((audio_time, t, false)),
@@ -747,6 +756,30 @@ pub fn run_case(case: &Case) -> CaseResult {
 					break;
 				}
 				res.hit("fade_curve_callbacks_checked");
+			}
+			if let (Some(tw), true, true) = (quiet_resume, quiet(&before_early), quiet(&before_late)) {
+				for (k, f) in out.iter().enumerate() {
+					// (within the callback the gain is interpolated towards the value at its end:
+					// nothing in it can exceed that)
+					let _ = k;
+					let e = (out.len() + 2) as f64 * dt;
+					let x = if tw.dur <= 0.0 { 1.0 } else { (e / tw.dur).clamp(0.0, 1.0) };
+					let db = -60.0 * (1.0 - tw.easing.apply(x));
+					let hi = if db <= -60.0 { 0.0 } else { 10f64.powf(db / 20.0) };
+					let g = (f.left / dc) as f64;
+					if g > hi + 1e-4 {
+						res.fail(Violation::new(
+							"envelope",
+							"louder-than-the-fade-in-at-its-start",
+							format!("callback {ci} frame {k}: gain {g:.6}; the sound was not advancing when this callback began and resumes with a fade-in of {:.4}s, which cannot get beyond {hi:.6} by the end of this callback", tw.dur),
+						));
+						break;
+					}
+				}
+				if res.violation.is_some() {
+					break;
+				}
+				res.hit("resume_starts_checked");
 			}
 			let dir_down = |m: &M| matches!(m, M::Pausing { .. } | M::Stopping { .. } | M::Paused | M::Stopped);
 			let dir_up = |m: &M| matches!(m, M::Resuming { .. } | M::Playing);
